@@ -52,9 +52,9 @@ def letters(kind, d):
     if kind == "bool":
         return [False, True]
     if kind == "float":
-        return [-1.0, 0.5, 2.0]
+        return [-1.0, 0.5, 2.0, 0.0]  # exact zeros: a field that vanishes on some particles still counts them in N
     if kind == "complex":
-        return [1.0 + 0j, 1j, -1.0 + 2j]
+        return [1.0 + 0j, 1j, -1.0 + 2j, 0j]
     if kind == "vector":
         if d == 2:
             return [[1.0, 0.0], [0.0, -1.0], [s2, s2]]
@@ -78,6 +78,8 @@ def assignments(kind, d, n):
     for combo in itertools.product(range(len(al)), repeat=n):
         if kind == "bool" and not any(combo):
             continue
+        if kind in ("float", "complex") and all(al[k] == 0 for k in combo):
+            continue  # the identically vanishing field: every normalised quantity is 0/0
         yield combo, np.array([al[k] for k in combo], dtype=dt)
 
 
